@@ -379,5 +379,8 @@ def _model_shape_from_bbox(model, bbox_factor=None):
     else:
         bbox = model.bounding_box.bounding_box()
 
-    return (int(np.ceil(bbox[0][1] - bbox[0][0])),
-            int(np.ceil(bbox[1][1] - bbox[1][0])))
+    # (center + half) - (center - half) can exceed 2 * half by a
+    # rounding error, which must not enlarge a window whose extent is
+    # a whole number of pixels
+    return (int(np.ceil(np.round(bbox[0][1] - bbox[0][0], 9))),
+            int(np.ceil(np.round(bbox[1][1] - bbox[1][0], 9))))
